@@ -75,13 +75,15 @@ H("C15", "wmo", _WW, "quick", "C15.b write_root: MVER+MOHD of a root with empty 
   ["c15b_root_empty_all_versions", "c15b_skybox_flag_iff_chunk"],
   ["writer::WmoWriter::{write_root,write_version,write_header,write_skybox}", "version::WmoVersion::{to_raw,supports_feature}"],
   "version symbolic over all 11; stale header counts, flags, ambient colour, bounding box symbolic; skybox presence symbolic", "no list elements", stubs=[FMT, RS])
-H("C15", "wmo", _WW, "quick", "C15.b write_root on a fully populated root: the reference chunk walker tiles the file in the expected chunk order, MOHD counts == list "
-  "lengths (not the stale header fields) == records implied by the chunk sizes, bounding box position",
-  ["c15b_root_counts_and_tiling", "c15b_root_tiling_classic"], ["writer::WmoWriter::write_root and every root chunk writer"],
+H("C15", "wmo", _WW, "quick", "C15.b write_root on a small root (2 portal refs, 1 light): chunks tile the file, MOHD counts == list lengths == records implied by chunk sizes",
+  ["c15b_root_small_counts_and_tiling"], ["writer::WmoWriter::{write_root,write_header,write_portal_references,write_lights}"],
+  _V5 + "; stale header counts/flags/colour/box symbolic; element contents concrete", "4 chunks, 160 bytes", stubs=[FMT, RS])
+H("C15", "wmo", _WW, "thorough", "C15.b write_root on a root with every fixed-record list populated: the reference chunk walker tiles the file in the expected chunk order, MOHD "
+  "counts == list lengths (not the stale header fields) == records implied by the chunk sizes, HAS_SKYBOX with MOSB",
+  ["c15b_root_counts_and_tiling", "c15b_root_tiling_classic"], ["writer::WmoWriter::write_root and the root chunk writers for MOMT, MOSB, MOPR, MOLT, MODS"],
   "fixed-record lists populated with lengths 1-3 (materials 2, portal refs 2, lights 3, sets 2) + skybox, element contents concrete; lists whose chunk size "
-  "depends on element data (names, portal vertices, visible lists, synthesised doodad names) empty - covered per chunk; versions MoP / {Classic, TBC}", "one root shape, 7 / 4 chunks, ~480 bytes",
-  assumes=["pre-MoP variant has no materials (known finding KF-C15-momt-size)"],
-  stubs=[_FDD, RS])
+  "depends on element data (names, portal vertices, visible lists, synthesised doodad names) empty - covered per chunk; versions MoP / Classic", "one root shape, 7 / 4 chunks, ~480 bytes",
+  assumes=["pre-MoP variant has no materials (known finding KF-C15-momt-size)"], stubs=[_FDD, RS], timeout=2400)
 # ----------------------------------------------------------------------------- C15.d group
 H("C15", "wmo", _WW, "quick", "C15.d write_group: MOGP size back-patched to the bytes that follow; sub-chunks MOVT,MOVI,MONR,MOTV,MOCV,MOBA,MOBN,MODR tile the payload "
   "after the group header; empty group declares just its header", ["c15d_group_backpatch", "c15d_group_backpatch_empty"],
@@ -126,14 +128,9 @@ H("C15", "wmo", _WP, "quick", "C15 witness: bounding box after write_root -> par
   ["c15p_root_bbox_witness"], ["writer::WmoWriter::write_root", "parser::WmoParser::{parse_header,parse_group_info,calculate_global_bounding_box}"],
   "concrete: empty root, box max (1,1,1)", "one input", stubs=_PS + [RS], expect="witness:KF-C15-root-bbox")
 H("C15", "wmo", _WP, "quick", "canary", ["c15_parser_canary"], ["parser::WmoParser::parse_portal_references"], "vacuity twin", "-", expect="canary", stubs=_PS)
-H("C15", "wmo", _WP, "thorough", "C15.b(T) parse_root(write_root(x)) for one concrete root with every fixed-record list populated: read_chunks + parse_version + every "
-  "parse_*; list lengths, header counts and one field of every populated list come back", ["c15p_parse_root_concrete"],
-  ["parser::WmoParser::{parse_root,read_chunks,parse_version,parse_* (all)}", "writer::WmoWriter::write_root"],
-  "concrete content (read_chunks walks sizes read from the file bytes), MoP; materials 2, portal refs 2, lights 3", "one root, 5 chunks, ~390 bytes",
-  assumes=["no skybox, bounding box not compared (known findings KF-C15-skybox-v17, KF-C15-root-bbox)"], stubs=_PS + [_FDD, RS, _LOSSY], timeout=2400)
 H("C15", "wmo", _WP, "thorough", "C15.a(T) two portals: vertices attributed to the right portal", ["c15p_portals_roundtrip_2"],
-  ["parser::WmoParser::parse_portals", "writer::WmoWriter::write_portals"], "portal 0: symbolic normal, vertex (1,0,0); portal 1: two symbolic vertices, normal (0,0,1)",
-  "2 portals, 92-byte buffer", stubs=_PS, timeout=2400)
+  ["parser::WmoParser::parse_portals", "writer::WmoWriter::write_portals"], "portal 0: symbolic finite normal, vertex (1,0,0); portal 1: two symbolic vertices, normal (0,0,1)",
+  "2 portals, 92 bytes", assumes=["portal 0 normal finite (Kani's NaN check fires on inf * 0 in the writer's plane-distance product)"], stubs=_PS, timeout=2400)
 H("C15", "wmo", _WP, "quick", "C15.c(T) texture names and offset table size after write_textures -> parse_textures", ["c15p_textures_roundtrip"],
   ["parser::WmoParser::parse_textures", "writer::WmoWriter::write_textures"], "concrete names \"abc\", \"ab\" (the offset table is a real std HashMap)", "2 names",
   stubs=_PS + [RS])
@@ -164,7 +161,7 @@ H("C15", "wmo", _WC, "quick", "C15.e conversion between every pair of versions s
 H("C15", "wmo", _WC, "quick", "canary", ["c15_converter_canary"], ["converter::WmoConverter::convert_root"], "vacuity twin", "-", expect="canary", stubs=[FMT, RS, _TR])
 
 OUTSIDE["C15"] = [
-    "whole-file equality parse_root(write_root(x)) == x with symbolic content (read_chunks walks sizes read from the file; decided only for one concrete populated root and chunk by chunk)",
+    "WmoParser::parse_root / read_chunks as a whole (tried on one concrete 390-byte root: > 10 GB; on an 80-byte root: > 5 min) - every parse_* is driven separately with a literal chunk table, read_chunks and parse_version are not executed",
     "write -> parse -> second write byte identity beyond what per-chunk equality of every on-disk field implies",
     "lists longer than 1-4 elements, names longer than 3 bytes (18 for one concrete doodad-set name), non-ASCII names, empty names (the parser substitutes Group_<i>)",
     "texture offset table contents (only its size, thorough tier) and WmoMaterial::get_texture*_index (std HashMap)",
